@@ -25,8 +25,8 @@ import (
 type c11sCase struct {
 	Scenario string   `json:"scenario"` // "c11sess"
 	Role     string   `json:"role"`
-	State    string   `json:"state"` // pre | logged | probing | logout
-	Type     string   `json:"type"`  // MsgType value; "" = no MsgType field at all
+	State    string   `json:"state"`              // pre | logged | probing | logout
+	Type     string   `json:"type"`               // MsgType value; "" = no MsgType field at all
 	TypeRaw  []byte   `json:"type_raw,omitempty"` // the value as bytes when it is not text (takes precedence)
 	Tokens   []string `json:"tokens"`
 	BadSum   bool     `json:"bad_sum,omitempty"`
